@@ -387,9 +387,50 @@ class Gen(object):
         self.rng = rng
         self.lines = []
         self.meta = {}
+        self.mode = None      # None | "otherdev" | "badgx": rewrite the next emitted line
+        self.tags = []        # coverage tags attached to the emitted lines
+        self.made = 0
+
+    @staticmethod
+    def retok_batch(tok, nb):
+        """the tensor token with another batch size (same dims; values repeated / cut)"""
+        head, sh, vs = tok.split(":")
+        dims, b = sh.split("/")
+        vals = vs.split(",") if vs else []
+        vol = len(vals) // max(int(b), 1)
+        base = vals[:vol] if vol else []
+        nv = (vals + base * nb)[:vol * nb]
+        return "%s:%s/%d:%s" % (head, dims, nb, ",".join(nv))
 
     def emit(self, rest, cls, prop_kind, **extra):
         """one base line → a naive and an eigen line (twins)"""
+        tags = list(self.tags)
+        if self.mode == "otherdev":
+            toks = rest.split(" ")
+            idx = [i for i, t in enumerate(toks) if t.startswith("T:")]
+            if not idx:
+                return None
+            k = self.rng.choice(idx)
+            toks[k] = "O:" + toks[k][2:]
+            rest, cls, prop_kind, extra = " ".join(toks), "exact", "otherdev", {}
+            tags.append("otherdev")
+        elif self.mode == "badgx":
+            toks = rest.split(" ")
+            if not toks[0].endswith("_bw"):
+                return None
+            idx = [i for i, t in enumerate(toks) if t.startswith("T:")]
+            if len(idx) == 4:
+                acc, opnd = idx[3], idx[0]
+            elif len(idx) == 6:
+                j = self.rng.choice([0, 1])
+                acc, opnd = idx[4 + j], idx[j]
+            else:
+                return None
+            ob = int(toks[opnd].split(":")[1].split("/")[1])
+            nb = self.rng.choice([b for b in (1, 2, 3, 4) if b != ob])
+            toks[acc] = self.retok_batch(toks[acc], nb)
+            rest, cls, prop_kind, extra = " ".join(toks), "exact", "badgx", {}
+            tags.append("badgx")
         pair = []
         for dev in ("naive", "eigen"):
             line = dev + " " + rest
@@ -398,10 +439,11 @@ class Gen(object):
             pair.append(line)
         for line, other in ((pair[0], pair[1]), (pair[1], pair[0])):
             m = dict(extra)
-            m.update({"cls": cls, "kind": prop_kind, "twin": other, "kernel": rest.split(" ", 1)[0]})
+            m.update({"cls": cls, "kind": prop_kind, "twin": other, "kernel": rest.split(" ", 1)[0], "tags": tags})
             self.meta[line] = m
             self.lines.append(line)
-        return pair
+        self.made += 1
+        return None if self.mode else pair
 
     # ------------------------------------------------------------ elementwise
     def unary(self):
@@ -771,6 +813,188 @@ class Gen(object):
             y = rtensor(rng, dims, B + 1, "int")
         self.emit("%s %s %s" % (which, x.tok(), y.tok()), "exact", "fw")
 
+    # ------------------------------------------------ large-magnitude finite inputs
+    LARGE = [88.73, 100.0, 1e4, 3e38]
+
+    def large_values(self, which, n):
+        """n inputs: mostly large-magnitude values admissible for `which`, a few ordinary ones"""
+        rng = self.rng
+        L = self.LARGE
+        both = L + [-v for v in L]
+        pools = {"all": both, "pos": L, "exp": [-3e38, -1e4, -100.0, -88.73, 80.0, 88.0], "trig": [88.73, -88.73, 100.0, -100.0, 1e4, -1e4],
+                 "tan": [88.73, -88.73, 100.0, -100.0], "powl": [88.73, -88.73, 100.0, -100.0]}
+        pool = pools[which]
+        out = []
+        for _ in range(n):
+            if rng.random() < 0.8:
+                out.append(rng.choice(pool))
+            elif which in ("pos",):
+                out.append(f32(rng.uniform(0.5, 4)))
+            else:
+                out.append(f32(rng.uniform(-4, 4)) or 1.0)
+        return out
+
+    LARGE_UNARY = {"negate": "all", "abs": "all", "tanh": "all", "sigmoid": "all", "softplus": "all", "sqrt": "pos", "log": "pos",
+                   "exp": "exp", "sin": "trig", "cos": "trig", "tan": "tan"}
+    LARGE_CONST = {  # name: (x pool, k choices); the SCALAR kernels use the same table
+        "add_const": ("all", [-4, -1.5, 0, 2, 3.25]), "subtract_const_r": ("all", [-4, -1.5, 0, 2, 3.25]),
+        "subtract_const_l": ("all", [-4, -1.5, 0, 2, 3.25]), "multiply_const": ("all", [-1, -0.5, 0, 0.25, 1]),
+        "divide_const_r": ("all", [-4, -1, 1, 2, 4]), "divide_const_l": ("all", [-4, -1.5, 1, 2, 3.25]),
+        "pow_const_r": ("pos", [0.5, -1, 0.25, -0.5, 0, 1]), "pow_const_l": ("powl", [1.5, 2, 0.5]),
+        "prelu": ("all", [-2, -0.5, 0, 0.25, 1, 2]), "elu": ("all", [0.25, 1, 2]),
+    }
+    LARGE_SCALAR = {"add_scalar": "add_const", "subtract_scalar_r": "subtract_const_r", "subtract_scalar_l": "subtract_const_l",
+                    "multiply_scalar": "multiply_const", "divide_scalar_r": "divide_const_r", "divide_scalar_l": "divide_const_l",
+                    "pow_scalar_r": "pow_const_r", "pow_scalar_l": "pow_const_l"}
+    LARGE_BINARY = ["add", "subtract", "multiply", "divide"]
+
+    def large(self, i):
+        """large-magnitude finite inputs for the i-th elementwise kernel (cyclic), forward and bw∘fw"""
+        rng = self.rng
+        names = ([("u", n) for n in sorted(self.LARGE_UNARY)] + [("c", n) for n in sorted(self.LARGE_CONST)] +
+                 [("s", n) for n in sorted(self.LARGE_SCALAR)] + [("b", n) for n in self.LARGE_BINARY])
+        fam, name = names[i % len(names)]
+        n = rng.choice([1, 3, 4, 5, 8, 9])
+        self.tags = ["large"]
+        try:
+            if fam == "u":
+                x = TT([n], 1, self.large_values(self.LARGE_UNARY[name], n))
+                if UNARY[name][0] and rng.random() < 0.5:
+                    gy = rtensor(rng, [n], 1, "dyadic", -3, 3, True)
+                    self.emit("%s_grad %s %s" % (name, x.tok(), gy.tok()), "tol", "grad", large=True)
+                else:
+                    self.emit("%s_fw %s" % (name, x.tok()), "exact" if name in EXACT_UNARY else "tol", "fw", large=True)
+            elif fam == "c":
+                pool, ks = self.LARGE_CONST[name]
+                x = TT([n], 1, self.large_values(pool, n))
+                k = rng.choice(ks)
+                if rng.random() < 0.5:
+                    gy = rtensor(rng, [n], 1, "dyadic", -3, 3, True)
+                    self.emit("%s_grad %s %s K:%s" % (name, x.tok(), gy.tok(), vtok(k)), "tol", "grad", large=True)
+                else:
+                    self.emit("%s_fw %s K:%s" % (name, x.tok(), vtok(k)), "tol", "fw", large=True)
+            elif fam == "s":
+                pool, ks = self.LARGE_CONST[self.LARGE_SCALAR[name]]
+                bk = rng.choice([1, 1, 2])
+                x = TT([n], rng.choice([1, bk]), [])
+                x = TT([n], x.batch, self.large_values(pool, n * x.batch))
+                k = TT([], bk, [rng.choice(ks) for _ in range(bk)])
+                self.emit("%s_fw %s %s" % (name, x.tok(), k.tok()), "tol", "fw", large=True)
+            else:
+                ba, bb = rng.choice([(1, 1), (2, 1), (1, 2), (2, 2)])
+                a = TT([n], ba, self.large_values("all", n * ba))
+                lo, hi = (1, 4) if name == "divide" else (-1, 1) if name == "multiply" else (-4, 4)
+                b = rtensor(rng, [n], bb, "dyadic", lo, hi, name == "divide")
+                if rng.random() < 0.5:
+                    a, b = (b, a) if name != "divide" else (a, b)
+                if rng.random() < 0.5:
+                    gy = rtensor(rng, [n], max(ba, bb), "dyadic", -3, 3, True)
+                    self.emit("%s_grad %s %s %s" % (name, a.tok(), b.tok(), gy.tok()), "tol", "grad", large=True)
+                else:
+                    self.emit("%s_fw %s %s" % (name, a.tok(), b.tok()), "tol", "fw", large=True)
+        finally:
+            self.tags = []
+
+    # ------------------------------------------------ matmul beyond one 8x8 tile of the Naive loop
+    BIGDIMS = [1, 2, 7, 8, 9, 15, 16, 17, 20, 33]
+
+    def bigmatmul(self, i, budget):
+        rng = self.rng
+        for _ in range(50):
+            I, J, K = rng.choice(self.BIGDIMS), rng.choice(self.BIGDIMS), rng.choice(self.BIGDIMS)
+            if i % 3 == 0:
+                I, K = rng.choice([1, 2, 7, 8]), rng.choice([9, 15, 16, 17, 20, 33])    # wide result: d3 > 8 >= d1
+            if max(I, J, K) <= 8:
+                continue
+            ba, bb = [(1, 1), (2, 1), (1, 2), (2, 2), (3, 3), (3, 1)][i % 6]
+            B = max(ba, bb)
+            # cost of the model: (cells) x (iterations)
+            if (B * I * K) * (B * I * J * K) <= budget and (B * max(I * J, J * K)) * (B * I * J * K) <= budget:
+                break
+        else:
+            return
+        a = rtensor(rng, trim([I, J]), ba, "int", -2, 2)
+        b = rtensor(rng, trim([J, K]), bb, "int", -2, 2)
+        self.tags = ["bigmat"]
+        try:
+            if i % 2 == 0:
+                self.emit("matmul_fw %s %s" % (a.tok(), b.tok()), "exact", "fw", spec=spec_matmul(a, b))
+            else:
+                yd = trim([I, K])
+                y = rtensor(rng, yd, B, "int", -1, 1)
+                gy = rtensor(rng, yd, B, "int", -2, 2)
+                ga = rtensor(rng, a.dims, a.batch, "int", -2, 2)
+                gb = rtensor(rng, b.dims, b.batch, "int", -2, 2)
+                self.emit("matmul_bw %s %s %s %s %s %s" % (a.tok(), b.tok(), y.tok(), gy.tok(), ga.tok(), gb.tok()), "exact", "bw")
+        finally:
+            self.tags = []
+
+    # ------------------------------------------------ windows entirely inside the padding
+    def allpad(self, i):
+        rng = self.rng
+        H, Wd, C = rng.choice([1, 2, 3]), rng.choice([1, 2, 3]), rng.choice([1, 1, 2])
+        s0, s1 = rng.choice([1, 1, 2, 3]), rng.choice([1, 1, 2, 3])
+        axes = ["0", "1", "01"][i % 3]
+        self.tags = ["allpad"]
+        try:
+            if i % 2 == 0:
+                w0, w1 = rng.choice([1, 2, 3]), rng.choice([1, 2, 3])
+                p0 = w0 + rng.choice([0, 1, 2]) if "0" in axes else rng.choice([0, 1])
+                p1 = w1 + rng.choice([0, 1, 2]) if "1" in axes else rng.choice([0, 1])
+                bx = rng.choice([1, 2])
+                x = rtensor(rng, trim([H, Wd, C]), bx, rng.choice(["int", "float"]), -4, 4)
+                args = "%d %d %d %d %d %d" % (w0, w1, p0, p1, s0, s1)
+                sp = spec_max_pool2d(x, w0, w1, p0, p1, s0, s1)
+                if sp in (None, "big"):
+                    return
+                if rng.random() < 0.7:
+                    self.emit("max_pool2d_fw %s %s" % (x.tok(), args), "exact", "fw", spec=sp)
+                else:
+                    gy = rtensor(rng, sp.dims, sp.batch, "int", -3, 3)
+                    gx = rtensor(rng, x.dims, x.batch, "int", -2, 2)
+                    self.emit("max_pool2d_bw %s %s %s %s %s" % (x.tok(), TT(sp.dims, sp.batch, sp.vals).tok(), gy.tok(), gx.tok(), args), "exact", "bw")
+            else:
+                KH, KW, OC = rng.choice([1, 2, 3]), rng.choice([1, 2]), rng.choice([1, 2])
+                d0, d1 = rng.choice([1, 2]), rng.choice([1, 2])
+                p0 = (KH - 1) * d0 + 1 + rng.choice([0, 1]) if "0" in axes else rng.choice([0, 1])
+                p1 = (KW - 1) * d1 + 1 + rng.choice([0, 1]) if "1" in axes else rng.choice([0, 1])
+                bx, bw = rng.choice([(1, 1), (2, 1), (1, 2), (2, 2)])
+                x = rtensor(rng, trim([H, Wd, C]), bx, "int", -3, 3)
+                w = rtensor(rng, trim([KH, KW, C, OC]), bw, "int", -2, 2)
+                args = "%d %d %d %d %d %d" % (p0, p1, s0, s1, d0, d1)
+                sp = spec_conv2d(x, w, p0, p1, s0, s1, d0, d1)
+                if sp in (None, "big"):
+                    return
+                if rng.random() < 0.7:
+                    self.emit("conv2d_fw %s %s %s" % (x.tok(), w.tok(), args), "exact", "fw", spec=sp)
+                else:
+                    y = rtensor(rng, sp.dims, sp.batch, "int", -2, 2)
+                    gy = rtensor(rng, sp.dims, sp.batch, "int", -3, 3)
+                    gx = rtensor(rng, x.dims, x.batch, "int", -2, 2)
+                    gw = rtensor(rng, w.dims, w.batch, "int", -2, 2)
+                    self.emit("conv2d_bw %s %s %s %s %s %s %s" % (x.tok(), w.tok(), y.tok(), gy.tok(), gx.tok(), gw.tok(), args), "exact", "bw")
+        finally:
+            self.tags = []
+
+    # ------------------------------------------------ rewritten lines: foreign operand / wrong accumulator batch
+    def rewritten(self, mode, i):
+        """a line of the i-th generator (cyclic) with one operand on the other device (`otherdev`) or, for a
+        backward kernel, with an accumulator of the same dims but another batch (`badgx`); both must be `err`"""
+        gens = [self.unary, self.const, self.pown, self.scalar, self.binary, self.matmul, self.conv2d, self.pool,
+                self.inplace, self.logsumexp]
+        if mode == "badgx":
+            gens = [self.unary, self.const, self.pown, self.binary, self.matmul, self.conv2d, self.pool]
+        f = gens[i % len(gens)]
+        self.mode = mode
+        before = self.made
+        try:
+            for _ in range(40):
+                f()
+                if self.made > before:
+                    break
+        finally:
+            self.mode = None
+
     def malformed(self):
         rng = self.rng
         cands = ["naive", "cuda add_fw T:1/1:1 T:1/1:1", "naive add_fw T:1/1:1", "naive add_fw T:1/1:1,2 T:1/1:1",
@@ -846,6 +1070,17 @@ def streams(rng, tier):
         g.pool(boundary=True)
     for i in range(24 if tier == "quick" else 300):
         g.conv2d(batched=True)
+    quick = tier == "quick"
+    for i in range(70 if quick else 1800):
+        g.large(i if not quick else rng.randrange(10 ** 6))
+    for i in range(6 if quick else 90):
+        g.bigmatmul(i if not quick else rng.randrange(10 ** 6), 3 * 10 ** 6 if quick else 4 * 10 ** 7)
+    for i in range(16 if quick else 400):
+        g.allpad(i if not quick else rng.randrange(10 ** 6))
+    for i in range(40 if quick else 700):
+        g.rewritten("badgx", i if not quick else rng.randrange(10 ** 6))
+    for i in range(40 if quick else 700):
+        g.rewritten("otherdev", i if not quick else rng.randrange(10 ** 6))
     for i in range(12 if tier == "quick" else 60):
         g.malformed()
     return g.lines, g.meta
@@ -928,6 +1163,22 @@ def finite_out(out):
     if res is None:
         return True
     return all(v != "C" and not (v != v) and not math.isinf(v) for sh, vs in res for v in vs)
+
+
+def large_nonfinite(impl, model):
+    """an element where the implementation is NaN/inf although the model's value is finite in float32"""
+    si, ri = decode(impl)
+    sm, rm = decode(model)
+    if ri is None or rm is None or len(ri) != len(rm):
+        return None
+    for (sha, va), (shb, vb) in zip(ri, rm):
+        for i, (a, b) in enumerate(zip(va, vb)):
+            if a == "C" or b == "C":
+                continue
+            m = float(b) if isinstance(b, int) else f32(b)
+            if (a != a or math.isinf(a)) and not (m != m or math.isinf(m)):
+                return "element %d is %r, the model's value there is finite (%r)" % (i, a, m)
+    return None
 
 
 def eval_samples(line, m, got):
@@ -1020,6 +1271,16 @@ def run_family(chk, prop):
                     chk.report("karith:%s:uninitialised-output" % meta[line]["kernel"],
                                "a forward kernel leaves elements of its raw result unwritten (canary survives): %s -> %s" % (line[:300], impl[:200]),
                                replay_obj([line], observed_impl=impl))
+                if impl.startswith("err modified"):
+                    chk.report("karith:%s:rejected-call-modified-accumulator:%s" % (meta[line]["kernel"], line.split(" ")[0]),
+                               "a backward entry point throws although it has already changed its accumulator: %s" % line[:300],
+                               replay_obj([line], observed_impl=impl))
+                if meta[line]["kind"] in ("badgx", "otherdev") and not impl.startswith("err") and not impl.startswith("crash"):
+                    chk.report("karith:%s:accepts-inadmissible:%s:%s" % (meta[line]["kernel"], meta[line]["kind"], line.split(" ")[0]),
+                               "%s must be rejected with an Error, the implementation answers `%s`: %s" % (
+                                   "an operand on another device" if meta[line]["kind"] == "otherdev" else
+                                   "an accumulator whose batch differs from its operand's", impl[:80], line[:300]),
+                               replay_obj([line], observed_impl=impl, model=model))
             for r in crashes:
                 if r.get("at_exit"):
                     chk.report("karith:at-exit:%s" % r["kind"], "sanitizer report at process exit: %s" % r["kind"],
@@ -1050,6 +1311,12 @@ def run_family(chk, prop):
                 if w:
                     chk.report("karith:%s:fw-differs-from-oracle:%s" % (m["kernel"], line.split(" ")[0]),
                                "`%s`: %s" % (line[:300], w), replay_obj([line], observed_impl=impl, model=model))
+                if m.get("large") and m["kind"] == "fw":
+                    w2 = large_nonfinite(impl, model)
+                    if w2:
+                        chk.report("karith:%s:nan-or-inf-at-large-input:%s" % (m["kernel"], line.split(" ")[0]),
+                                   "forward kernel returns NaN/inf for a large finite input whose result is finite: `%s`: %s ; %s" % (
+                                       line[:300], w2, what_line(line)[-300:]), replay_obj([line], observed_impl=impl, model=model))
                 if m.get("stable") and not finite_out(impl):
                     chk.report("karith:%s:overflow-or-nan:%s" % (m["kernel"], line.split(" ")[0]),
                                "stabilised function overflows or returns NaN on large finite inputs: " + what_line(line),
@@ -1058,6 +1325,12 @@ def run_family(chk, prop):
         if p == "C01":
             for line, m in meta.items():
                 impl, model = got[line]
+                if m.get("large") and m["kind"] == "grad" and not impl.startswith("crash"):
+                    w2 = large_nonfinite(impl, model)
+                    if w2:
+                        chk.report("karith:%s:nan-or-inf-at-large-input:%s" % (m["kernel"], line.split(" ")[0]),
+                                   "bw(fw(x)) returns NaN/inf for a large finite input whose gradient is finite: `%s`: %s" % (line[:300], w2),
+                                   replay_obj([line], observed_impl=impl, model=model))
                 if impl.startswith("crash") or line not in dis_lines:
                     continue
                 k = m["kernel"]
@@ -1105,6 +1378,16 @@ def run_family(chk, prop):
     for line, (impl, model) in got.items():
         kc[meta[line]["kernel"] + ":" + impl.split(" ")[0]] += 1
     chk.extra_cov["karith_lines_by_kernel"] = dict(sorted(kc.items()))
+    cm = {}
+    for line, m in meta.items():
+        for tag in m.get("tags", []):
+            base = re.sub(r"_(fw|bw|grad)$", "", m["kernel"])
+            cm.setdefault(base, collections.Counter())[tag] += 1
+    chk.extra_cov["karith_coverage_matrix"] = {k: dict(v) for k, v in sorted(cm.items())}
+    chk.extra_cov["karith_coverage_tags"] = ("large = large-magnitude finite inputs (88.73, 100, 1e4, 3e38, both signs); bigmat = matmul "
+                                             "dims from {1,2,7,8,9,15,16,17,20,33}; badgx = accumulator with another batch (must be err, "
+                                             "accumulator unchanged); allpad = padding >= window / kernel extent; otherdev = an operand on "
+                                             "the other backend's device (must be err); counts are lines (both backends)")
     chk.extra_cov["karith_metamorphic_groups"] = sum(1 for m in meta.values() if "samples" in m)
     chk.extra_cov["karith_backend_pairs"] = sum(1 for l, m in meta.items() if l.startswith("naive ") and m.get("twin"))
     rule = ("karith: operation lines `<dev> <kernel> <tensors> <args>` for every arithmetic kernel (11 unary, 10 const, pown, 8 scalar, "
